@@ -206,6 +206,7 @@ def run_O9(chk):
                     "dmrg_: the default eigensolver options do not ask for the smallest real part")
 
 MUTANTS = [
+    ('default penalty set once in front of the loop', 'yastn/tn/mps/_dmrg.py', '        for pr in project:\n            penalty, st = (100, pr) if isinstance(pr, MpsMpoOBC) else pr\n', '        penalty = 100\n        for st in project:\n            if not isinstance(st, MpsMpoOBC):\n                penalty, st = st\n', 'U15'),
     ('factor of a canonical input survives', 'yastn/tn/mps/_dmrg.py', '    psi.factor = 1  # DMRG works with a normalized state; canonize_ resets the factor only when it is executed\n', '', 'O4'),
     ('Heff1 early return without the factor', 'yastn/tn/mps/_env.py', '        tmp = tensordot(self.F[n - 1, n], tmp, axes=((0, 1, 2), (2, 0, 3)))\n\n        if precompute:\n            tmp = tmp.fuse_legs(axes=(0, (1, 2)))\n        return tmp * self.op.factor', '        tmp = tensordot(self.F[n - 1, n], tmp, axes=((0, 1, 2), (2, 0, 3)))\n\n        if precompute:\n            return tmp.fuse_legs(axes=(0, (1, 2)))\n        return tmp * self.op.factor', 'O8'),
     ('eigs default LM', 'yastn/krylov/_krylov.py', "def eigs(f, v0, k=1, which='SR',", "def eigs(f, v0, k=1, which='LM',", 'O9'),
